@@ -42,9 +42,10 @@ RULE = (
     "file has >= 2 partner files.  Distinct = distinct case hash."
 )
 ASSUMPTIONS = [
-    "primary points have pairwise different times (to the millisecond), so "
-    "that output names - the time span of the primaries held - can only "
-    "collide for two results of one primary file (known finding)",
+    "primary points have pairwise different times (duplicates are moved by "
+    "whole milliseconds), so that output names - the time span of the "
+    "primaries held - can only collide for two results of one primary file "
+    "(known finding)",
     "every point is stored in exactly one file whose name coverage contains "
     "its time (harness construction)",
     "worker processes are forked by typhon; the interleaving of their result "
@@ -159,7 +160,16 @@ def ceil_s(ms):
     return BASE + dt.timedelta(seconds=-((-ms) // 1000))
 
 
-def split_track(pset, cuts):
+TEMPLATE_START_ONLY = {
+    "dirs": [],
+    "file": [["lit", "t_"], ["ph", "year"], ["ph", "month"], ["ph", "day"],
+             ["ph", "hour"], ["ph", "minute"], ["ph", "second"],
+             ["lit", ".pkl"]],
+    "user": {}, "coverage_s": None,
+}
+
+
+def split_track(pset, cuts, start_only=False):
     """sort by time and cut; returns list of point sets (plain dicts)"""
     n = len(pset["id"])
     order = sorted(range(n), key=lambda i: (pset["t_ms"][i], pset["id"][i]))
@@ -174,7 +184,8 @@ def split_track(pset, cuts):
     # files of one fileset need distinct names: merge pieces with one name
     merged = []
     for piece in pieces:
-        name = (floor_s(piece["t_ms"][0]), ceil_s(piece["t_ms"][-1]))
+        name = (floor_s(piece["t_ms"][0]),
+                None if start_only else ceil_s(piece["t_ms"][-1]))
         if merged and merged[-1][0] == name:
             for k in piece:
                 merged[-1][1][k] += piece[k]
@@ -183,13 +194,19 @@ def split_track(pset, cuts):
     return [p for _, p in merged]
 
 
-def write_fileset(root, pieces, name, broken_index=None):
+def write_fileset(root, pieces, name, broken_index=None, start_only=False):
     from typhon.files import FileHandler, FileSet
     os.makedirs(root, exist_ok=True)
     specs, names = [], []
+    template = TEMPLATE_START_ONLY if start_only else TEMPLATE
+    coverage = max(
+        (ceil_s(p["t_ms"][-1]) - floor_s(p["t_ms"][0])).total_seconds()
+        for p in pieces) if start_only else None
     for k, piece in enumerate(pieces):
         s, e = floor_s(piece["t_ms"][0]), ceil_s(piece["t_ms"][-1])
-        rel = G.format_path(TEMPLATE, s, e, {}, "")
+        if start_only:
+            e = s + dt.timedelta(seconds=coverage)
+        rel = G.format_path(template, s, e, {}, "")
         piece = dict(piece)
         # unique labels in arbitrary (here: reversed) order
         piece["labels"] = list(range(len(piece["id"]) * 3, 0, -3))
@@ -200,8 +217,13 @@ def write_fileset(root, pieces, name, broken_index=None):
     broken = []
     if broken_index is not None and names:
         broken = [names[broken_index % len(names)]]
-    fs = FileSet(G.template_str(TEMPLATE, root), name=name,
+    fs = FileSet(G.template_str(template, root), name=name,
                  handler=FileHandler(reader=PickleReader(broken)))
+    if start_only:
+        # history: the fileset is searched (its info cache is filled) before
+        # the files' duration is made known through time_coverage
+        list(fs.find(no_files_error=False))
+        fs.time_coverage = dt.timedelta(seconds=coverage)
     return fs, specs, broken
 
 
@@ -267,9 +289,12 @@ def check_filesets(case, ctx):
              for g in range(2)]
     with G.Sandbox() as box:
         splits = {}
+        start_only = case.get("start_only") or [False, False]
         for k, cuts in enumerate(case["splits"]):
-            splits[k] = [split_track(sets[0], cuts[0]),
-                         split_track(sets[1], cuts[1])]
+            splits[k] = [split_track(sets[0], cuts[0], start_only[0]),
+                         split_track(sets[1], cuts[1], start_only[1])]
+        if any(start_only):
+            ctx.label("start-only-names+late-time_coverage")
         reference_files = None
         for ci, cfg in enumerate(case["configs"]):
             pieces = splits[cfg["split"] % len(splits)]
@@ -279,7 +304,8 @@ def check_filesets(case, ctx):
             for f in range(2):
                 fs, cov, bad = write_fileset(
                     os.path.join(root, names[f]), pieces[f], names[f],
-                    broken[1] if broken and broken[0] == f else None)
+                    broken[1] if broken and broken[0] == f else None,
+                    start_only[f])
                 filesets.append(fs)
                 coverages.append(cov)
                 broken_names.append(bad)
@@ -451,8 +477,13 @@ def fileset_cases(draw):
     # then only the two results of ONE primary file with two partner files can
     # still collide (sequentially, in one worker), and concurrent writers never
     # share a name.
-    cloud["sets"][0]["t_ms"] = [t + i for i, t in
-                                enumerate(cloud["sets"][0]["t_ms"])]
+    used, unique = set(), []
+    for t in cloud["sets"][0]["t_ms"]:
+        while t in used:
+            t += 1          # only duplicates are moved, by whole milliseconds
+        used.add(t)
+        unique.append(t)
+    cloud["sets"][0]["t_ms"] = unique
 
     def cuts(n):
         return draw(st.lists(st.integers(0, max(n - 1, 0)), min_size=0,
@@ -465,10 +496,17 @@ def fileset_cases(draw):
     times = sorted(t for s in cloud["sets"] for t in s["t_ms"])
     period = None
     if draw(st.integers(0, 2)) > 0:
-        a = draw(st.sampled_from(times)) + draw(st.sampled_from(
-            [0, -500, 500, -60000]))
-        b = draw(st.sampled_from(times)) + draw(st.sampled_from(
-            [0, 500, 1000, 60000]))
+        # mostly a wide period (start in the first, end in the last third of
+        # the data), sometimes an arbitrary one
+        k = len(times)
+        if draw(st.integers(0, 3)) > 0:
+            lo_pool, hi_pool = times[:max(1, k // 3)], times[-max(1, k // 3):]
+        else:
+            lo_pool = hi_pool = times
+        a = draw(st.sampled_from(lo_pool)) + draw(st.sampled_from(
+            [0, 0, -500, 500, -60000]))
+        b = draw(st.sampled_from(hi_pool)) + draw(st.sampled_from(
+            [0, 0, 0, 500, 1000, 60000]))
         if b <= a:
             a, b = min(a, b) - 1000, max(a, b) + 1000
         period = {"start_ms": a, "end_ms": b}
@@ -485,8 +523,10 @@ def fileset_cases(draw):
             "output": draw(st.sampled_from(["memory", "memory", "disk"])),
             "split": draw(st.integers(0, 1)),
             "broken": broken})
+    start_only = [draw(st.integers(0, 3)) == 0, draw(st.integers(0, 3)) == 0]
     return {"cloud": cloud, "max_distance": radius, "max_interval_s": m_s,
             "splits": splits, "period": period, "configs": configs,
+            "start_only": start_only,
             "shuffle": draw(P.shuffle_rules())}
 
 
